@@ -666,6 +666,33 @@ class _Run:
                 nf = self.p.funcs.get(f'{self.func.qname}.<locals>.{n.func.id}')
                 if nf is not None:
                     assigned |= _assigned_names(nf.node.body) - _bound_names(nf.node.body) - set(nf.params)
+        # helpers of the package that work in place on an argument (`_set_cell(pdf, ind, col, v)`: pdf.iloc[..] = v):
+        # the local handed over is modified by the call, iteration after iteration
+        for n in [x for b in s.body for x in ast.walk(b)]:
+            if isinstance(n, ast.Call) and isinstance(n.func, (ast.Name, ast.Attribute)):
+                try:
+                    q = self.p.resolve_static(self.func.module, n.func, self.func)
+                except Exception:  # pylint: disable=broad-except
+                    q = None
+                hf = self.p.funcs.get(q) if q else None
+                if hf is None and isinstance(n.func, ast.Attribute) and isinstance(n.func.value, ast.Name) \
+                        and n.func.value.id == 'self' and self.func.cls is not None:
+                    hf = self.p.find_method(self.func.cls, n.func.attr)
+                if hf is None:
+                    continue
+                touched = _assigned_names(hf.node.body) & set(hf.params)
+                rebound_first = {t.id for st_ in hf.node.body for t in ast.walk(st_)
+                                 if isinstance(t, ast.Name) and isinstance(t.ctx, ast.Store)}
+                touched -= rebound_first
+                if not touched:
+                    continue
+                a1 = hf.node.args
+                pnames = [x.arg for x in a1.posonlyargs + a1.args]
+                if hf.cls is not None and not hf.is_static and pnames and isinstance(n.func, ast.Attribute):
+                    pnames = pnames[1:]
+                for pn, a in list(zip(pnames, n.args)) + [(k.arg, k.value) for k in n.keywords if k.arg]:
+                    if pn in touched and isinstance(a, ast.Name):
+                        assigned.add(a.id)
         body_st = st.fork()
         init = {}
         for nm in assigned:
@@ -1052,7 +1079,15 @@ class _Run:
     def name(self, e: ast.Name, st):
         nm = e.id
         if nm in st.env:
-            return st.env[nm]
+            v = st.env[nm]
+            if tag(v) == 'phi' and st.guard != TRUE:
+                # a value selected by an earlier `if c:` and read under the same condition again (`if c: n = len(x)` ...
+                # `if c: use(n)`): the alternative of that condition
+                lits = set(guard_lits(st.guard))
+                hit = [x for g, x in v[1] if g in lits]
+                if len(hit) == 1 and not any(tag(x) == 'unk' for x in hit):
+                    return hit[0]
+            return v
         # enclosing function's locals are not tracked: treat as free symbol
         f = self.func.parent
         while f is not None:
